@@ -182,7 +182,12 @@ CLAIMED = {
          "neither decides liveness (DESIGN §3/C16). What Worker::run / Acceptor::run do with the message is not under contract."),
    design="§3/C16"),
  "C17": dict(
-   text=("Partial claim — a sliver: the renaming device that 'equivalence up to generic parameter names' rests on. Verus discharges, on the "
+   text=("Partial claim — two slivers. (1) 'substituting b into T ... in particular keeps reference mutability', one level deep: on the real "
+         "text of rustdoc_ir's Type::bind_generic_type_parameters (the whole recursive function over the real Type enum and its payload "
+         "structs, both closures of the function-pointer arm included) Verus discharges that a reference stays a reference with the same "
+         "mutability and lifetime, a raw pointer keeps its mutability, an array its length, every non-generic type its shape, a bound "
+         "generic parameter becomes its binding and an unbound one is left alone. (2) The renaming device that 'equivalence up to generic "
+         "parameter names' rests on. Verus discharges, on the "
          "real text of rustdoc_ir's UnassignedIdGenerator::{new, id} (generics_equivalence.rs), that names are mapped to ordinals stably "
          "and injectively: a known name keeps its ordinal and nothing changes; a new name gets the next ordinal and every other name "
          "keeps its own; no two names ever share an ordinal — so two names get the same ordinal exactly when they are the same name "
@@ -192,7 +197,9 @@ CLAIMED = {
          "render/parse lossless) is about the recursive functions of type_.rs (is_a_template_for, bind_generic_type_parameters, "
          "is_equivalent_to, _canonicalize), which recurse through `.iter().zip().all(|..| self.…)` closures and iterator chains over an "
          "enum recursive through Vec<Type>: Verus rejects that text, Kani did not converge on one concrete shape pair (DESIGN §3/C17). "
-         "How is_equivalent_to pairs the two generators' ordinals is not under contract. ahash::HashMap<&str, usize> is a stand-in."),
+         "How is_equivalent_to pairs the two generators' ordinals is not under contract. ahash::HashMap<&str, usize> is a stand-in. For (1): "
+         "the DEEP statement (every nested position; agreement with is_a_template_for) is not decided, and termination of the recursion "
+         "through Vec elements and closures is assumed (allow-listed attribute, listed in trusted_base)."),
    design="§3/C17"),
  "C19": dict(
    text=("Partial claim — the builder-API -> schema half. Verus discharges, on the real text of all 17 registration methods of "
